@@ -14,11 +14,13 @@
     * `recover` is whatever secp256k1 recovery returns (unforgeability is outside the model);
     * `reexec` is TxProcessor.Process + Finalize on the parent's state (properties C01/C04/C05…).
 
-  FULL statement `accept_total : ∀ c b, accept c b ≠ .panic` is FALSE on the current code:
-  `GetCorrectMiner` panics ("mineTime should be milliseconds") for `Header.Time < 10^7` and that line is
-  reached by any block that is signed by ANY deputy of the term, names that deputy as miner, has a
-  correct tx root / height, and carries no transactions.  See `accept_total_refuted`,
-  `accept_total_partial` (guard `10^7 ≤ Time`), oracle signature `c02/panic/mine-time-not-ms`.
+  `accept_total : accept c b ≠ .panic` is a FULL theorem since fix 26f228d in /repo
+  (chain/consensus/schedule.go: `GetCorrectMiner` returns ErrSmallerMineTime instead of
+  `panic("mineTime should be milliseconds")` for a stamp below 10^10 ms).  Before that commit the statement
+  was false: any block with `Header.Time < 10^7`, signed by ANY deputy of the term that names itself as
+  miner, with a correct tx root / height and no transactions, crashed every validating node (oracle
+  signature `c02/panic/mine-time-not-ms`; `legacy_getCorrectMiner_panics` keeps the witness on a frozen
+  copy of the old generated function, `tiny_stamp_rejected` is the same block on the current code).
 
   What acceptance does NOT constrain (faithful to `BlockAssembler.Seal`, which copies these fields from
   the received header): `GasLimit` at every height and `DeputyRoot` at non-snapshot heights —
@@ -60,7 +62,9 @@ theorem corruption_changes_hash (c : Ctx) (hinj : HashInjective c) (h h' : Heade
 /-! ### accept_sound -/
 
 /-- **accept_sound**: every clause of the property follows from `accept c b = .ok`.
-    `parent.time ≤ b.time` comes out of the schedule's `ErrSmallerMineTime` branch (`turn_ok` ⇐ `gcm_ok_iff`). -/
+    `parent.time ≤ b.time` AND `10^7 ≤ b.time` both come out of the schedule's two `ErrSmallerMineTime`
+    branches (stamp below 10^10 ms, negative pass time): `GetCorrectMiner = .ok` iff neither fires
+    (`gcm_ok_iff` ⇒ `turn_ok`). -/
 theorem accept_sound (c : Ctx) (b : Block) (hinj : HashInjective c)
     (hexp : ∀ tx ∈ b.txs, tx.exp < 18446744073709551616)
     (hu32 : ∀ p, c.load b.header.parentHash = some p → p.height + 1 < u32)
@@ -230,7 +234,7 @@ theorem ok_saves {σ : Type} (view : σ → Ctx) (save : σ → Block → σ) (e
     | reject r => rw [hvb] at hv; cases hv
     | panic => rw [hvb] at hv; cases hv
 
-/-! ### accept_total: refuted; partial version -/
+/-! ### accept_total -/
 
 namespace Witness
 
@@ -261,7 +265,8 @@ def honest : Block :=
                 gasLimit := 105000000, gasUsed := 0, time := 20000005, signData := 11, deputyRoot := 0, extra := [] }
     txs := [], logsRoot := none, deputyNodesRoot := 0, confirms := [] }
 
-/-- the same block with `Time = 1`, signed by deputy 2 who also names itself as miner (NOT in turn) -/
+/-- the same block with `Time = 1`, signed by deputy 2 who also names itself as miner (NOT in turn):
+    the crash block of the code before fix 26f228d -/
 def tiny : Block :=
   { honest with header := { honest.header with time := 1, miner := 102, signData := 12 } }
 
@@ -270,20 +275,47 @@ end Witness
 /-- non-vacuity: an honest block is accepted by the witness node -/
 example : accept Witness.ctx Witness.honest = .ok := by decide
 
-/-- **accept_total is refuted**: a block with `Time = 1`, signed by a deputy that is not even in turn,
-    makes `accept` (hence `InsertBlock` on every validating node) panic. -/
-theorem accept_total_refuted : ¬ (∀ (c : Ctx) (b : Block), accept c b ≠ .panic) := by
-  intro h
-  exact h Witness.ctx Witness.tiny (by decide)
+/-- the block that used to crash every node (`Time = 1`, signed by a deputy that is not even in turn) is
+    now an ordinary rejection — through `accept` and through `insertBlock` -/
+theorem tiny_stamp_rejected :
+    accept Witness.ctx Witness.tiny = .reject .smallerTime ∧
+    (insertBlock (σ := Unit) (fun _ => Witness.ctx) (fun u _ => u) ⟨(), none⟩ Witness.tiny).2 = .reject .smallerTime := by
+  decide
 
-/-- the same through `insertBlock`: the verdict is a panic although the engine is otherwise healthy -/
-theorem insert_panics :
-    (insertBlock (σ := Unit) (fun _ => Witness.ctx) (fun u _ => u) ⟨(), none⟩ Witness.tiny).2 = .panic := by decide
+/-- frozen copy of the function tools/go2lean generated from schedule.go BEFORE fix 26f228d -/
+def GetCorrectMiner_legacy (mineTime : Int) (mineTimeout : Int) (parent_Time : Nat) (nodeCount : Int) (parent_Height : Nat) (parent_MinerAddress : Nat) :=
+  (show GoRes _ from
+  if (decide (mineTime < (10000000000 : Int))) then
+    .panic
+  else
+    let passTime : Int := (mineTime - ((Int.ofNat parent_Time) * (1000 : Int)))
+    if (decide (passTime < (0 : Int))) then
+      .err "ErrSmallerMineTime"
+    else
+      let nodeCount : Int := nodeCount
+      let oneLoopTime : Int := (nodeCount * mineTimeout)
+      let minerDistance : Int := ((Int.tdiv (Int.tmod passTime oneLoopTime) mineTimeout) + (1 : Int))
+      .ok ((GoSem.uadd 4294967296 parent_Height (1 : Nat)), parent_MinerAddress, (GoSem.toU 4294967296 minerDistance)))
 
-/-- **accept_total_partial**: with a block stamp of at least 10^7 s (the guard the Go panic tests, in
-    seconds), a positive slot length and a re-execution that does not panic, `accept` never panics. -/
-theorem accept_total_partial (c : Ctx) (b : Block)
-    (hms : 10000000 ≤ b.header.time) (hT : 0 < c.mineTimeout)
+/-- legacy refutation (code before 26f228d): the stamp of `Witness.tiny` on `Witness.parent` panicked, and
+    the current function differs from the frozen one exactly there -/
+theorem legacy_getCorrectMiner_panics :
+    GetCorrectMiner_legacy (mineTime := 1000) (mineTimeout := 10000) (parent_Time := 20000000) (nodeCount := 3)
+      (parent_Height := 4) (parent_MinerAddress := 0) = .panic ∧
+    GetCorrectMiner (mineTime := 1000) (mineTimeout := 10000) (parent_Time := 20000000) (nodeCount := 3)
+      (parent_Height := 4) (parent_MinerAddress := 0) = .err "ErrSmallerMineTime" := by
+  decide
+
+/-- **accept_total** (FULL): `accept` never panics, for every node view and every block.
+    Remaining hypotheses, none about the block's content:
+    * `hT` — the configured slot length is positive (`passTime % (n*T)` divides by it; Config invariant);
+    * `hexec` — re-execution (`TxProcessor.Process` + `Finalize`, abstract here) does not panic: that is the
+      subject of the execution properties, not of the validator;
+    * `hn'` — fewer than 10^9 deputies at the block's height (the uint32 index arithmetic of
+      `GetDeputyByDistance`, as in C13; `DeputyCount` is a small config value);
+    * `hu32` — the parent's height + 1 fits uint32 (otherwise `GetDeputyByDistance(0, …)` panics). -/
+theorem accept_total (c : Ctx) (b : Block)
+    (hT : 0 < c.mineTimeout)
     (hexec : c.reexec b ≠ .panic)
     (hn' : (c.deputies b.header.height).length < 1000000000)
     (hu32 : ∀ p, c.load b.header.parentHash = some p → p.height + 1 < u32) :
@@ -298,33 +330,35 @@ theorem accept_total_partial (c : Ctx) (b : Block)
     have htarget : GoSem.uadd u32 parent.height 1 = parent.height + 1 := GoSem.uadd_small (hu32 parent hload)
     unfold verifyMiner at hvm
     rw [hh] at hvm
-    have hcases : ∀ (hpt : (parent.time : Int) * 1000 ≤ (b.header.time : Int) * 1000), _ :=
-      fun hpt => correctMiner_cases (c.deputies b.header.height).length
+    have hcases : ∀ (hms : (10000000000 : Int) ≤ (b.header.time : Int) * 1000)
+        (hpt : (parent.time : Int) * 1000 ≤ (b.header.time : Int) * 1000), _ :=
+      fun hms hpt => correctMiner_cases (c.deputies b.header.height).length
         (isSpecial b.header.height c.termDuration c.interimDuration)
         (rankOfMiner (c.deputies b.header.height) parent.miner) c.mineTimeout ((b.header.time : Int) * 1000)
-        parent.time parent.height hn hn' hT (by omega) hpt (fun p hp => rankOfMiner_some hp)
+        parent.time parent.height hn hn' hT hms hpt (fun p hp => rankOfMiner_some hp)
     rcases verifyMinerCore_panic hvm with ht | ⟨r, ht, hnone⟩
     · unfold turn at ht
       simp only at ht
       rw [hh] at ht
       rcases turnCore_panic ht with hg | hz | h0 | hcm
-      · have := (gcm_panic_iff _ _ _ _ _ _).mp hg
-        omega
+      · exact gcm_not_panic _ _ _ _ _ _ hg
       · have : (0 : Int) < ((c.deputies b.header.height).length : Int) * c.mineTimeout :=
           Int.mul_pos (by exact_mod_cast hn) hT
         omega
       · rw [← hh, htarget] at h0; omega
-      · by_cases hpt : (parent.time : Int) * 1000 ≤ (b.header.time : Int) * 1000
-        · rcases hcases hpt with ⟨r, _, hok⟩ | ⟨e, he⟩
+      · by_cases hgood : (10000000000 : Int) ≤ (b.header.time : Int) * 1000 ∧
+            (parent.time : Int) * 1000 ≤ (b.header.time : Int) * 1000
+        · rcases hcases hgood.1 hgood.2 with ⟨r, _, hok⟩ | ⟨e, he⟩
           · rw [hok] at hcm; cases hcm
           · rw [he] at hcm; cases hcm
-        · obtain ⟨e, he⟩ := (gcm_err_iff ((b.header.time : Int) * 1000) c.mineTimeout parent.time
-            ((c.deputies b.header.height).length : Int) parent.height 0).mpr ⟨by omega, by omega⟩
+        · -- the generated arithmetic already returned ErrSmallerMineTime: correctMiner is an error too
+          obtain ⟨e, he⟩ := (gcm_err_iff ((b.header.time : Int) * 1000) c.mineTimeout parent.time
+            ((c.deputies b.header.height).length : Int) parent.height 0).mpr (by omega)
           rw [correctMiner_of_gcm_err he] at hcm
           cases hcm
-    · obtain ⟨_, hpt, _, _, hcm⟩ := turn_ok ht
+    · obtain ⟨h1e7, hpt, _, _, hcm⟩ := turn_ok ht
       rw [hh] at hcm
-      rcases hcases (by omega) with ⟨r', hr', hok⟩ | ⟨e, he⟩
+      rcases hcases (by omega) (by omega) with ⟨r', hr', hok⟩ | ⟨e, he⟩
       · rw [hok] at hcm
         have hcm' := GoRes.ok.inj hcm
         subst hcm'
